@@ -46,6 +46,7 @@ func cmdRun(args []string) {
 		fmt.Fprintln(os.Stderr, "load:", err)
 		os.Exit(2)
 	}
+	P.OutDir = *out
 	P.Specs = loadSpecs(findSpecFiles(*repo, *verif))
 	for _, e := range P.Specs.Errors {
 		fmt.Println("SPEC-ERROR", e)
